@@ -344,3 +344,61 @@ def r11(rr, repo):
 def r12(rr, repo):
     from .c04 import r9 as c04r9
     c04r9(rr, repo)
+
+
+@rule('C03.R13', "what MQ publishes is what the filter returned, decided at the moment of sending: the send callback evaluates a deferred result exactly once, publishes nothing (None) exactly when that result is None, and "
+                 "otherwise encodes exactly the returned topics - plus '_metrics' / '_filter' only under their switches - with the configured encoding choice")
+def r13(rr, repo):
+    from .zmq import MQF
+    mod, cb = repo.find(f'{MQF}::MQ.send.callback')
+    _, og = repo.find(f'{MQF}::MQ.send.outgoing')
+
+    def inline(call, rc, path):
+        if U(rc.func) in (og.name, f'<def {og.name}>'):
+            return (mod, og, None)
+        return None
+    ev = Evaluator(repo, mod, inline=inline, max_depth=2)
+    ev.scope_node = cb
+    ps = ev.run(cb.body)
+    rr.paths += len(ps)
+    n_none = n_pub = 0
+    for p in ps:
+        o = p.outcome
+        if o is None or o[0] != 'return':
+            rr.violated('the send callback can end without telling the sender what to publish', mod, cb, witness=p.pc_text()[-120:], key='cb-falls-off')
+            continue
+        deferred = p.facts.get('truthy(callable(frames))')
+        val = 'frames()' if deferred is True else 'frames'
+        evals = [e for e in p.events if e.kind == 'call' and e.term == 'frames' and not e.args]
+        if deferred is True:
+            rr.ob('a deferred result is evaluated exactly once per send', len(evals) == 1, mod, cb, witness=f'{len(evals)} evaluations', key='cb-once')
+        else:
+            rr.ob('a plain result is never called', not evals, mod, cb, key='cb-not-called')
+        none = p.facts.get(f'isnone({val})')
+        isnone = o[1] is None or (isinstance(o[1], ast.Constant) and o[1].value is None)
+        if none is True:
+            n_none += 1
+            rr.ob('a result of None publishes nothing (the callback answers None, no topic is encoded)', isnone and not [e for e in p.events if e.kind == 'call' and e.term.endswith('frames2topicmsgs')], mod, cb, witness=p.outcome_text()[:80], key='cb-none')
+            continue
+        if none is None:
+            rr.violated('the send callback does not ask whether the (evaluated) result is None', mod, cb, witness=p.pc_text()[-160:], key='cb-none-untested')
+            continue
+        n_pub += 1
+        if isnone or not (isinstance(o[1], ast.Call) and U(o[1].func).endswith('frames2topicmsgs') and len(o[1].args) == 2):
+            rr.violated('a result that is not None is not handed to the encoder', mod, cb, witness=p.outcome_text()[:100], key='cb-publishes')
+            continue
+        arg, jpg = o[1].args
+        rr.ob('the encoding choice handed to the encoder is the configured one', U(jpg) == 'self.outs_jpg', mod, cb, witness=U(jpg), key='cb-outs-jpg')
+        # peel {**X, '_k': ...} wrappers
+        extra = []
+        cur = arg
+        while isinstance(cur, ast.Dict) and len(cur.keys) == 2 and cur.keys[0] is None and isinstance(cur.keys[1], ast.Constant):
+            extra.append(cur.keys[1].value)
+            cur = cur.values[0]
+        rr.ob("the topics encoded are exactly the filter's result", U(cur) == val, mod, cb, witness=U(cur)[:60], key='cb-payload')
+        m = p.facts.get('is(True, self.outs_metrics)')
+        f = p.facts.get('is(True, self.outs_filter)')
+        want = ([] if m is not True else ['_metrics']) + ([] if f is not True else ['_filter'])
+        rr.ob("'_metrics' / '_filter' are added exactly under their switches, nothing else is", sorted(extra) == sorted(want), mod, cb, witness=f'added {sorted(extra)} with outs_metrics={m} outs_filter={f}', key=f'cb-extras|{m}|{f}')
+    rr.floor('callback paths that publish nothing', n_none, 1, mod, cb)
+    rr.floor('callback paths that publish', n_pub, 4, mod, cb)
